@@ -21,6 +21,7 @@ type lockWorld struct {
 	sim     *Sim
 	disk    *SimDisk
 	period  time.Duration
+	lockID  string
 	lockDir string
 	hbFile  string
 	stalls  bool
@@ -95,10 +96,12 @@ type statObs struct {
 	at    time.Time // instant the result was handed to the caller
 }
 
-const lockID = "L"
+// lock ids: what the id looks like must not matter
+var lockIDs = []string{"L", "L", "config", "unfinished job", "a.b-c", "lock-info"}
 
 func newLockWorld(rc *RunCtx, sim *Sim, nClients int, override bool) *lockWorld {
-	w := &lockWorld{rc: rc, sim: sim, disk: NewSimDisk(), period: 50 * time.Millisecond,
+	lockID := lockIDs[rc.Ch.Intn("lockid", len(lockIDs))]
+	w := &lockWorld{rc: rc, sim: sim, disk: NewSimDisk(), period: 50 * time.Millisecond, lockID: lockID,
 		lockDir: "/locks/lockfile-" + lockID, holders: map[int]*hold{}, curOwner: -1,
 		lastMk: map[int]int{}, removed: map[int]removalEvent{}, statSeen: map[int][]statObs{}, lastBeat: map[int]time.Time{},
 		judged: map[int]judgement{}, pendingStat: map[int]*DiskEvent{}, pendingDestroyed: map[int]removalEvent{}, releasingGen: map[int]int{}, removes: map[int]int{}}
@@ -114,7 +117,7 @@ func newLockWorld(rc *RunCtx, sim *Sim, nClients int, override bool) *lockWorld 
 }
 
 func (w *lockWorld) addClient(c int, override bool) *lockClient {
-	return w.addClientWithID(c, override, lockID)
+	return w.addClientWithID(c, override, w.lockID)
 }
 
 // addClientWithID: id may be another spelling of the same lock id (surrounding white space is not significant).
